@@ -880,9 +880,13 @@ func init() {
 			n := 40 * len(c05Mutations)
 			r.Require("primed_with_accepted_genuine_request", 100)
 			r.Require("registration_sequence_accepted", 100)
+			r.Require("tenant_sequence_accepted", 100)
 			return []core.Workload{
 				{Name: "forgeries", N: n*c.Pick(2, 4) + c.Pick(400, 20000), Fn: c05Run},
 				{Name: "registration_changes", N: c.Pick(200, 2000), Fn: c05Registration},
+				{Name: "tenant_sequences", N: c.Pick(120, 1200), Fn: func(r *core.Run, idx int, rng *rand.Rand) {
+					tenantSequence(r, "tenant_sequences", idx, rng, false, true)
+				}},
 			}
 		},
 	})
